@@ -348,7 +348,7 @@ def run(ctx):
     ctx.cov['rule'] = ('every handler body over 10 operations up to length 4/5 x initial reraise flag (TLC state graph), each compiled '
                        'to Python and run with 5 exception classes: identity of what propagates, innermost traceback frame, '
                        'logger.error count; exception_filter (5 usages x 5 predicate results x body), remove_path_on_error, '
-                       'raise_with_cause tables')
+                       'raise_with_cause tables (the remover also using the helper itself); 10- and 3000-link cause chains')
     ctx.cov['exhaustive'] = True
 
 
